@@ -4,6 +4,7 @@ import Proofs.InterpScope
 import Proofs.InterpQuery
 import Proofs.InterpWF
 import Proofs.InterpOps
+import Proofs.InterpStore
 
 /-!
   C04 — Interpreted OAL computes what the action language defines.
@@ -218,6 +219,110 @@ theorem exec_preserves_wf_stmt (C : Ctx) (n : Nat) :
     (∀ e c v c', (run C n).eval e c = some (.ok (v, c')) → WF c.st → WF c'.st) :=
   ⟨fun s c o c' h => (rwf_run C n).2 s c o c' h, fun e c v c' h => (rwf_run C n).1 e c v c' h⟩
 
+/-! ## the relational store of `Spec` is an abstraction of the mechanism of xtuml/meta.py
+
+  `Pyx.Meta` (PyxModel/Meta.lean, property C02) models the store the code really keeps: instances are global creation
+  indices; an association is TWO directed link maps with cardinality-checked `connect`, resolved by `_find_link` over
+  kinds and phrase; a rejected relate is undone; delete unrelates every partner.  `Refines kname ι s st` relates a
+  mechanism state `s` and a `Spec` state `st` under a naming of classes (`kname`, injective) and of instances
+  (`ι`: global index ↦ (class, index in class)): same pools in the same order; the pair list of every association
+  holds exactly the linked pairs, once each; and BOTH projections of the pair list give every instance its partners in
+  the order of its directed link set — what navigation observes is identical, order included.
+  (A relation, not a function: `Spec` keeps one insertion-ordered list per association, whose global order the two
+  directed maps do not determine.)  Hypotheses: the invariants `AllInv` of C02 and its schema condition `SchemaOk`. -/
+
+section Store
+open Pyx.Meta (AllInv SchemaOk)
+variable {kname : Nat → String} {ι : Nat → Inst} {s : Pyx.Meta.State} {st : State}
+
+/-- the initial states correspond -/
+theorem store_init (kname : Nat → String) (ι : Nat → Inst) : Refines kname ι Pyx.Meta.init initState :=
+  refines_init kname ι
+
+/-- (a) `new` commutes with the abstraction: Spec creates ⟨class, next index of the class⟩ and the extended naming refines -/
+theorem store_new (hk : Function.Injective kname) (kinds : List Nat) (sch : Pyx.Meta.Schema)
+    (R : Refines kname ι s st) (A : AllInv sch s) (k : Nat) (hkin : k ∈ kinds) (hasId : Bool) :
+    ∃ st', newInst (ctxOf kname kinds sch) (kname k) st = .ok (⟨kname k, st.next (kname k)⟩, st') ∧
+      Refines kname (extend ι s.count ⟨kname k, st.next (kname k)⟩) (Pyx.Meta.new s k hasId).1 st' :=
+  new_refines hk kinds sch R A k hkin hasId
+
+/-- (b) `relate` of live instances: accepted by the mechanism (both connects, or already related) ⇒ accepted by Spec with
+    corresponding results; rejected (RelateException after the undo, UnknownLink) ⇒ rejected by Spec, and neither
+    state changes.  Guard: both instances live (Spec rejects a relate of a deleted instance; the code does not look). -/
+theorem store_relate (hk : Function.Injective kname) (kinds : List Nat) (sch : Pyx.Meta.Schema)
+    (R : Refines kname ι s st) (A : AllInv sch s) {x y : Nat}
+    (hx : Pyx.Meta.live s x) (hy : Pyx.Meta.live s y) (rel phrase : String) :
+    ((Pyx.Meta.relate sch s x y rel phrase).2 = .ok →
+      ∃ st', relate (ctxOf kname kinds sch) (ι x) (ι y) rel phrase st = .ok st' ∧
+        Refines kname ι (Pyx.Meta.relate sch s x y rel phrase).1 st') ∧
+    ((Pyx.Meta.relate sch s x y rel phrase).2 ≠ .ok →
+      (Pyx.Meta.relate sch s x y rel phrase).1 = s ∧
+        ∃ e, relate (ctxOf kname kinds sch) (ι x) (ι y) rel phrase st = .error e) :=
+  relate_refines hk kinds sch R A hx hy rel phrase
+
+/-- (c) `unrelate` of created instances, accepted and rejected (UnrelateException, UnknownLink) alike -/
+theorem store_unrelate (hk : Function.Injective kname) (kinds : List Nat) (sch : Pyx.Meta.Schema)
+    (R : Refines kname ι s st) (A : AllInv sch s) {x y : Nat} (hx : x < s.count) (hy : y < s.count)
+    (rel phrase : String) :
+    ((Pyx.Meta.unrelate sch s x y rel phrase).2 = .ok →
+      ∃ st', unrelate (ctxOf kname kinds sch) (ι x) (ι y) rel phrase st = .ok st' ∧
+        Refines kname ι (Pyx.Meta.unrelate sch s x y rel phrase).1 st') ∧
+    ((Pyx.Meta.unrelate sch s x y rel phrase).2 ≠ .ok →
+      (Pyx.Meta.unrelate sch s x y rel phrase).1 = s ∧
+        ∃ e, unrelate (ctxOf kname kinds sch) (ι x) (ι y) rel phrase st = .error e) :=
+  unrelate_refines hk kinds sch R A hx hy rel phrase
+
+/-- (d) `delete`: the mechanism's loop of unrelates over every link of the class leaves exactly what Spec's delete
+    leaves (instance out of its pool, all its pairs gone, every other partner list in its old order); a dead
+    instance is rejected on both sides -/
+theorem store_delete (hk : Function.Injective kname) {sch : Pyx.Meta.Schema} (hok : SchemaOk sch)
+    (R : Refines kname ι s st) (A : AllInv sch s) {x : Nat} (hx : x < s.count) :
+    ((Pyx.Meta.delete sch s x).2 = .ok →
+      ∃ st', deleteInst (ι x) st = .ok st' ∧ Refines kname ι (Pyx.Meta.delete sch s x).1 st') ∧
+    ((Pyx.Meta.delete sch s x).2 ≠ .ok →
+      (Pyx.Meta.delete sch s x).1 = s ∧ ∃ e, deleteInst (ι x) st = .error e) :=
+  delete_refines hk hok R A hx
+
+/-- what an accepted delete leaves behind in the mechanism, exactly -/
+theorem store_delete_mechanism {sch : Pyx.Meta.Schema} (hok : SchemaOk sch) (A : AllInv sch s) {x : Nat}
+    (hx : Pyx.Meta.live s x) :
+    (Pyx.Meta.delete sch s x).2 = .ok ∧
+    (Pyx.Meta.delete sch s x).1.pool = Pyx.Meta.upd s.pool (s.kindOf x) ((s.pool (s.kindOf x)).erase x) ∧
+    (∀ j z, ((Pyx.Meta.delete sch s x).1.links j).src z = ((s.links j).src z).filter (fun w => decide (w ≠ x ∧ z ≠ x))) ∧
+    (∀ j z, ((Pyx.Meta.delete sch s x).1.links j).tgt z = ((s.links j).tgt z).filter (fun w => decide (w ≠ x ∧ z ≠ x))) :=
+  ⟨(delete_char hok A hx).1, (delete_char hok A hx).2.2.2.1, (delete_char hok A hx).2.2.2.2.1, (delete_char hok A hx).2.2.2.2.2⟩
+
+/-- (e) one navigation step over a direct link (`Query.navigate`, C09) returns exactly the Spec image, in order -/
+theorem store_navigate (hk : Function.Injective kname) (kinds : List Nat) (sch : Pyx.Meta.Schema)
+    (R : Refines kname ι s st) {x : Nat} (hx : x < s.count)
+    (hd : Pyx.Query.KeysDistinct (Pyx.Query.linkEntriesFrom (s.kindOf x) 0 sch))
+    (toKind : Nat) (rel phrase : String) (e : Pyx.Query.LinkEntry)
+    (h : Pyx.Query.lookupKey (Pyx.Query.linkDict sch (s.kindOf x)) toKind rel phrase = some e) :
+    Pyx.Query.navigate sch s x toKind rel phrase = some (Pyx.Query.followEntry s e x) ∧
+    navStep (ctxOf kname kinds sch) st (ι x) ⟨kname toKind, rel, phrase⟩ = .ok ((Pyx.Query.followEntry s e x).map ι) :=
+  navigate_refines hk kinds sch R hx hd toKind rel phrase e h
+
+/-- (f) every history of new / relate / unrelate / delete in the domain (`Dom'`: relate on live instances, unrelate and
+    delete on created ones, new on a known class), run by the mechanism and — operation by operation on the named
+    instances — by Spec (`specRun`: a rejected operation changes nothing), ends in corresponding states -/
+theorem store_refines (hk : Function.Injective kname) (kinds : List Nat) {sch : Pyx.Meta.Schema} (hok : SchemaOk sch)
+    (ι0 : Nat → Inst) (ops : List Pyx.Meta.Op) (hd : Dom' kinds sch Pyx.Meta.init ops) :
+    Refines kname (specRun kname (ctxOf kname kinds sch) sch ops Pyx.Meta.init ι0 initState).1
+      (Pyx.Meta.run sch ops)
+      (specRun kname (ctxOf kname kinds sch) sch ops Pyx.Meta.init ι0 initState).2 :=
+  Pyx.Interp.store_refines hk kinds hok ι0 ops hd
+
+/-- … and corresponding states are observed alike: same liveness, same pools, same partners in the same order -/
+theorem store_observations {sch : Pyx.Meta.Schema} (R : Refines kname ι s st) (A : AllInv sch s) :
+    (∀ x, x < s.count → (st.isLive (ι x) = true ↔ Pyx.Meta.live s x)) ∧
+    (∀ k, st.live (kname k) = (s.pool k).map (fun x => (ι x).idx)) ∧
+    (∀ i x, x < s.count → srcProj (st.links i) (ι x) = ((s.links i).src x).map ι) ∧
+    (∀ i y, y < s.count → tgtProj (st.links i) (ι y) = ((s.links i).tgt y).map ι) ∧
+    (∀ i, (st.links i).Nodup) :=
+  ⟨fun _ hx => live_iff R A.pool hx, R.pool, R.srcOrd, R.tgtOrd, R.nodup⟩
+
+end Store
+
 /-! ## the operator tables of interpret.py -/
 
 open Pyx.Gen.InterpOps in
@@ -299,5 +404,30 @@ def checkSelect : Bool :=
   | _ => false
 
 example : checkSelect = true := by decide +kernel
+
+/-- store refinement, non-vacuity: a 1:M schema that is `SchemaOk`, class names that are injective, and a history in the
+    domain with an accepted relate, a rejected relate, an unrelate and a delete -/
+def schS : Pyx.Meta.Schema :=
+  [{ rel := "R2", srcKind := 0, srcKeys := ["A_ID"], srcMany := true, srcCond := true, srcPhrase := "",
+     tgtKind := 1, tgtKeys := ["ID"], tgtMany := false, tgtCond := true, tgtPhrase := "" }]
+def histS : List Pyx.Meta.Op :=
+  [.new 0 true, .new 1 true, .new 1 true, .relate 0 1 "R2" "", .relate 0 2 "R2" "", .unrelate 1 0 "R2" "", .delete 1]
+def knameS (k : Nat) : String := String.ofList (List.replicate (k + 1) 'K')
+
+example : Pyx.Meta.SchemaOk schS ∧ Dom' [0, 1] schS Pyx.Meta.init histS := by
+  refine ⟨?_, ?_⟩
+  · intro i a h
+    match i, h with
+    | 0, h => simp [schS] at h; subst h; decide
+    | i + 1, h => simp [schS] at h
+  · simp only [histS, Dom', OpOk', and_true]
+    decide
+
+example : Function.Injective knameS := by
+  intro a b h
+  have h1 := congrArg String.toList h
+  simp only [knameS, String.toList_ofList] at h1
+  have := congrArg List.length h1
+  simpa using this
 
 end PyxProps.C04
